@@ -7,7 +7,7 @@ META = {
              'deliver it - at the next function entry / generator resume, backward jump or return from a C call '
              'outside harness code (PY_START/PY_RESUME/JUMP/C_RETURN events switched on at arrival), never at an '
              'instruction boundary where the interpreter does not look at signals: serial - every k of several 3-5 task scenarios with cache hits and '
-             'misses (displays off and on); fork/spawn - strided k in the quick tier, every k of several scenarios in '
+             'misses (displays off and on; strided in the quick tier except the lines of labtech/cache.py and the line after each, which are all taken and run first); fork/spawn - strided k in the quick tier, every k of several scenarios in '
              'the thorough tier; (b) a second interrupt k2 lines after the first while gated tasks are still executing; '
              '(c) real SIGINT to the process group (workers and manager processes receive it as with a terminal '
              'Ctrl-C) at gate-controlled rest points: single (gates then opened), double (gates never opened) and '
